@@ -1,5 +1,5 @@
 """C06 Event handlers run one at a time, depth-first, in the documented order."""
-from mirlib import AnchorMissing, describe_call, describe_operand, describe_place, describe_rvalue, dom_guards, guards, _suffix_match
+from mirlib import AnchorMissing, edge_label, switch_desc, describe_call, describe_operand, describe_place, describe_rvalue, dom_guards, guards, _suffix_match
 from rules.common import aggregates, callers_by_name, owner_def, where
 
 META = {
@@ -25,40 +25,90 @@ R3_EXCEPTIONS = {
 def run(ctx):
     ag = ctx.crate(AG)
 
-    with ctx.rule("C06.R1", "T2", "run_handler: triggered handlers run to completion before the interrupted handler continues", floor=6) as r:
+    with ctx.rule("C06.R1", "T2", "run_handler: triggered handlers run to completion before the interrupted handler continues", floor=9) as r:
         rh = ctx.saw(ag.fn(suffix="agent_model::run_handler"))
         DIRTY = ag.const("ModificationFlags::DIRTY")["v"]
         TRIG = ag.const("ModificationFlags::TRIGGER_HANDLER")["v"]
         steps = [c for c in rh.calls if c.via_name == "step" and _suffix_match(c.trait, HA)]
         recs = [c for c in rh.calls if c.is_fn("agent_model::run_handler")]
         ies = [c for c in rh.calls if c.via_name == "item_event"]
+        adds = [c for c in rh.calls if c.via_name == "add_id"]
         if len(steps) != 1:
             raise AnchorMissing("run_handler: expected one handler.step call, found %d" % len(steps))
-        r.check(len(recs) == 2 and len(ies) == 2, "run_handler/two-recursion-sites", where(rh), "recursion on both the Continue and the Complete arm", "found %d recursive calls / %d item_event calls" % (len(recs), len(ies)))
-        arms = {}
-        for c in recs:
-            g = dom_guards(rh, c.block)
-            v = [l for d, l, _ in g if d.startswith("disc(step(")]
-            arms[v[0] if v else "?"] = c
-            r.check(any(d.startswith("disc(item_event(") and l == "Some" for d, l, _ in g), "run_handler/%s/recursion-iff-consequence" % (v[0] if v else "?"), c.loc(), "recursion exactly when the lifecycle produced a handler")
-            r.check(any(d.startswith("contains(") and "modified_item" in d and d.endswith(".flags, %d)" % TRIG) and l == "true" for d, l, _ in g), "run_handler/%s/recursion-iff-TRIGGER_HANDLER" % (v[0] if v else "?"), c.loc(), "recursion only for modifications flagged TRIGGER_HANDLER")
-            te = rh.try_edges(c)
-            r.check(te is not None and not (rh.reachable_from([te[1]]) & {steps[0].block}) and bool(rh.reachable_from([te[1]]) & set(rh.exits())), "run_handler/%s/failure-propagates" % (v[0] if v else "?"), c.loc(),
-                    "a failing consequence returns the error (`?`): nothing of the interrupted handler runs afterwards", "the error of a triggered handler is not propagated")
-            cons = describe_operand(rh, c.args[4]) if len(c.args) > 4 else ""
-            r.check("item_event(" in cons, "run_handler/%s/runs-the-consequence" % (v[0] if v else "?"), c.loc(), "the recursive call runs the handler returned by item_event")
-        r.check(set(arms) == {"Continue", "Complete"}, "run_handler/arms", where(rh), "arms with recursion: %s" % sorted(arms), "recursion arms: %s" % sorted(arms))
-        # between an item_event call and the next step there is always the recursion (on the Some edge)
-        for ie in ies:
-            sws = rh.result_switches(ie)
-            some = [rh.variant_edges(si["block"]).get("Some") for si in sws if rh.variant_edges(si["block"])]
-            if some:
-                ok, wit = rh.must_pass([some[0]], {c.block for c in recs}, targets={steps[0].block} | set(rh.exits()))
-                r.check(ok, "run_handler/consequence-before-next-step", ie.loc(), "a produced consequence is run before the next step / return", "a consequence can be skipped: %s" % wit)
-        adds = [c for c in rh.calls if c.via_name == "add_id"]
-        r.check(len(adds) == 2 and all(any(d.startswith("contains(") and "modified_item" in d and d.endswith(".flags, %d)" % DIRTY) for d, l, _ in dom_guards(rh, c.block) if l == "true") and "modified_item" in describe_operand(rh, c.args[1]) for c in adds), "run_handler/add_id-iff-DIRTY", where(rh), "the item id is collected iff the modification is DIRTY")
+        if not recs or not ies or not adds:
+            raise AnchorMissing("run_handler: recursion %d / item_event %d / add_id %d call sites" % (len(recs), len(ies), len(adds)))
+        stepb = steps[0].block
+        sws = rh.result_switches(steps[0])
+        ve = rh.variant_edges(sws[0]["block"]) if sws else None
+        if not ve or not {"Continue", "Complete", "Fail"} <= set(ve):
+            raise AnchorMissing("run_handler: match on the StepResult of handler.step")
+        # successful returns: Ok(..) assigned to the return place (possibly through one local)
+        ret_locals = {0} | {rv[1][1][0] for i, j, p, rv, line in rh.assigns() if p[0] == 0 and not p[1] and rv[0] == "use" and rv[1][0] in ("c", "m") and not rv[1][1][1]}
+        ok_ret = {i for i, j, p, rv, line in rh.assigns() if not p[1] and p[0] in ret_locals and describe_rvalue(rh, rv).startswith("Result::Ok(")}
+        targets = {stepb} | set(rh.exits())
 
-    with ctx.rule("C06.R2", "T2", "after Fail nothing further is executed", floor=2) as r:
+        def edges(pred):
+            out = []
+            for sb in range(rh.n):
+                if rh.is_cleanup(sb) or rh.term(sb)["k"] != "switch":
+                    continue
+                d = switch_desc(rh, sb)
+                for t_ in rh.succ[sb]:
+                    l = {"0": "false", "1": "true"}.get(edge_label(rh, sb, t_), edge_label(rh, sb, t_))
+                    if pred(d, l):
+                        out.append((sb, t_))
+            return out
+
+        no_item = edges(lambda d, l: d.startswith("disc(and_then(") and "modified_item" in d and l == "None") or edges(lambda d, l: d.startswith("disc(") and "modified_item" in d and l == "None")
+        if not no_item:
+            # merged form: the modification is first moved out of the StepResult
+            no_item = edges(lambda d, l: d.startswith("disc(and_then(") and l == "None")
+        no_trig = edges(lambda d, l: d.startswith("contains(") and d.endswith(".flags, %d)" % TRIG) and l == "false")
+        no_dirty = edges(lambda d, l: d.startswith("contains(") and d.endswith(".flags, %d)" % DIRTY) and l == "false")
+        no_cons = edges(lambda d, l: d.startswith("disc(item_event(") and l == "None")
+        r.check(bool(no_item) and bool(no_trig) and bool(no_dirty) and bool(no_cons), "run_handler/tests-present", where(rh), "the item lookup, the DIRTY and TRIGGER_HANDLER flag tests and the item_event result are inspected",
+                "missing test: lookup %d, TRIGGER %d, DIRTY %d, consequence %d" % (len(no_item), len(no_trig), len(no_dirty), len(no_cons)))
+        for V in ("Continue", "Complete"):
+            ok, wit = rh.must_pass_edges([ve[V]], {c.block for c in ies}, no_item + no_trig, targets)
+            r.check(ok, "run_handler/%s/trigger=>item_event" % V, steps[0].loc(), "after %s with a TRIGGER_HANDLER modification of a known item, the lifecycle is asked for its handler before the next step / return" % V,
+                    "after %s a triggering modification can be passed over without consulting the lifecycle (%s): the state change fires no handler" % (V, [rh.blocks[q]["t"].get("line") for q in (wit or [])][:8]))
+            ok, wit = rh.must_pass_edges([ve[V]], {c.block for c in adds}, no_item + no_dirty, targets)
+            r.check(ok, "run_handler/%s/dirty=>add_id" % V, steps[0].loc(), "after %s with a DIRTY modification the item id is collected" % V, "after %s a dirty item is not collected (%s)" % (V, [rh.blocks[q]["t"].get("line") for q in (wit or [])][:8]))
+        for k_, ie in enumerate(sorted(ies, key=lambda x: x.line)):
+            ok, wit = rh.must_pass_edges([ie.target], {c.block for c in recs}, [e for e in no_cons if rh.reaches(ie.block, {e[0]}) or e[0] == ie.block], targets)
+            r.check(ok, "run_handler/item_event#%d/consequence-is-run" % k_, ie.loc(), "a handler produced by the lifecycle is run (recursively) before the next step / return", "a produced consequence can be skipped: %s" % wit)
+            g = dom_guards(rh, ie.block)
+            r.check(any(d.startswith("contains(") and "modified_item" in d and d.endswith(".flags, %d)" % TRIG) and l == "true" for d, l, _ in g) or any(d.startswith("contains(") and d.endswith(".flags, %d)" % TRIG) and l == "true" for d, l, _ in g),
+                    "run_handler/item_event#%d/only-for-TRIGGER_HANDLER" % k_, ie.loc(), "the lifecycle is consulted only for modifications flagged TRIGGER_HANDLER")
+        for k_, c in enumerate(sorted(recs, key=lambda x: x.line)):
+            g = dom_guards(rh, c.block)
+            r.check(any(d.startswith("disc(item_event(") and l == "Some" for d, l, _ in g), "run_handler/recursion#%d/iff-consequence" % k_, c.loc(), "recursion exactly when the lifecycle produced a handler")
+            cons = describe_operand(rh, c.args[4]) if len(c.args) > 4 else ""
+            r.check("item_event(" in cons, "run_handler/recursion#%d/runs-the-consequence" % k_, c.loc(), "the recursive call runs the handler returned by item_event")
+            # the result of the nested run: every way on to the next step or to a successful return inspects it and takes the success edge
+            good, bad = [], []
+            for sb in range(rh.n):
+                if rh.is_cleanup(sb) or rh.term(sb)["k"] != "switch":
+                    continue
+                v2 = rh.variant_edges(sb)
+                si = rh.switch_info(sb)
+                if not v2 or not ({"Continue", "Break"} == set(v2) or {"Ok", "Err"} == set(v2)):
+                    continue
+                if any(s_[0] == "call" and s_[1] is c for s_ in rh.sources(["c", si["place"]], stop_at_calls=True)):
+                    good.append((sb, v2.get("Continue", v2.get("Ok"))))
+                    bad.append(v2.get("Break", v2.get("Err")))
+            ok, wit = rh.must_pass_edges([c.target], set(), good, {stepb} | ok_ret)
+            r.check(bool(good) and ok, "run_handler/recursion#%d/failure-propagates" % k_, c.loc(), "the interrupted handler is stepped again, or reported complete, only after the nested run is known to have succeeded",
+                    "the result of the nested run_handler can be ignored on the way to %s (%s): after a triggered handler fails the interrupted handlers carry on" % ("the next step or a successful return", [rh.blocks[q]["t"].get("line") for q in (wit or [])][:10]))
+            for e in bad:
+                reach = rh.reachable_from([e])
+                r.check(stepb not in reach and not (reach & ok_ret) and bool(reach & set(rh.exits())), "run_handler/recursion#%d/error-edge-returns" % k_, c.loc(), "the error edge returns the error: no further step, no successful return")
+        for k_, c in enumerate(sorted(adds, key=lambda x: x.line)):
+            g = dom_guards(rh, c.block)
+            r.check(any(d.startswith("contains(") and d.endswith(".flags, %d)" % DIRTY) and l == "true" for d, l, _ in g) and ("modified_item" in describe_operand(rh, c.args[1]) or "item_id" in describe_operand(rh, c.args[1])),
+                    "run_handler/add_id#%d/only-for-DIRTY" % k_, c.loc(), "the id collected is the modification's item id, only when DIRTY")
+
+    with ctx.rule("C06.R2", "T2", "after Fail nothing further is executed; after Complete the handler is not stepped again", floor=3) as r:
         rh = ag.fn(suffix="agent_model::run_handler")
         step = [c for c in rh.calls if c.via_name == "step" and _suffix_match(c.trait, HA)][0]
         sws = rh.result_switches(step)
@@ -70,8 +120,8 @@ def run(ctx):
         r.check(not bad and bool(reach & set(rh.exits())), "run_handler/Fail-stops", step.loc(), "the Fail edge returns without stepping or triggering anything", "after Fail the loop still reaches %s" % [c.via_name for c in bad])
         errs = [i for i, j, p, rv, line in rh.assigns() if i in reach and describe_rvalue(rh, rv).startswith("Result::Err(")]
         r.check(bool(errs), "run_handler/Fail-returns-Err", step.loc(), "Fail is turned into Err(err)")
-        comp = rh.reachable_from([ve["Complete"]])
-        r.check(not (comp & {step.block}), "run_handler/Complete-leaves-loop", step.loc(), "after Complete the handler is never stepped again")
+        ok, wit = rh.must_pass([ve["Complete"]], set(), targets={step.block})
+        r.check(ok, "run_handler/Complete-leaves-loop", step.loc(), "after Complete the handler is never stepped again", "after Complete the handler can be stepped again: %s" % [rh.blocks[q]["t"].get("line") for q in (wit or [])][:8])
 
     with ctx.rule("C06.R3", "T7+T11", "combinators forward the inner step's modification and drive one inner handler per step", floor=20) as r:
         n = 0
